@@ -100,8 +100,13 @@ def reshape(req):
     # loaded above when creating inventory objects.  The reshape method below
     # is responsible for ensuring that the resource providers and their
     # generations do not conflict.
-    allocation_objects = allocation.create_allocation_list(
-        context, allocations, consumers)
+    try:
+        allocation_objects = allocation.create_allocation_list(
+            context, allocations, consumers)
+    except webob.exc.HTTPBadRequest:
+        # Do not leave auto-created consumers behind a rejected request.
+        with excutils.save_and_reraise_exception():
+            allocation.delete_consumers(new_consumers_created)
 
     @db_api.placement_context_manager.writer
     def _update_consumers_and_create_allocations(ctx):
